@@ -109,6 +109,10 @@ func (priv *SignPrivateKey) Sign(rand io.Reader, hash []byte, opts crypto.Signer
 		hNat *bigmod.Nat
 		s    *bn256.G1
 	)
+	// A user key decoded from an encoding without the master public key cannot sign.
+	if priv.SignMasterPublicKey == nil || priv.SignMasterPublicKey.MasterPublicKey == nil {
+		return nil, nil, errors.New("sm9: the signature master public key is not set")
+	}
 	randutil.MaybeReadByte(rand)
 	for {
 		r, err := randomScalar(rand)
@@ -282,6 +286,14 @@ func (priv *EncryptPrivateKey) NewKeyExchange(uid, peerUID []byte, keyLen int, g
 	return ke
 }
 
+// checkMasterPublicKey: a user key decoded from an encoding without the master public key cannot run the exchange.
+func (ke *KeyExchange) checkMasterPublicKey() error {
+	if ke.privateKey == nil || ke.privateKey.EncryptMasterPublicKey == nil || ke.privateKey.EncryptMasterPublicKey.MasterPublicKey == nil {
+		return errors.New("sm9: the encryption master public key is not set")
+	}
+	return nil
+}
+
 // Destroy clears all internal state and Ephemeral private/public keys
 func (ke *KeyExchange) Destroy() {
 	if ke.r != nil {
@@ -310,6 +322,9 @@ func initKeyExchange(ke *KeyExchange, hid byte, r *bigmod.Nat) {
 
 // InitKeyExchange generates random with responder uid, for initiator's step A1-A4
 func (ke *KeyExchange) InitKeyExchange(rand io.Reader, hid byte) ([]byte, error) {
+	if err := ke.checkMasterPublicKey(); err != nil {
+		return nil, err
+	}
 	r, err := randomScalar(rand)
 	if err != nil {
 		return nil, err
@@ -405,6 +420,9 @@ func respondKeyExchange(ke *KeyExchange, hid byte, r *bigmod.Nat, rA []byte) ([]
 
 // RespondKeyExchange when responder receive rA, for responder's step B1-B7
 func (ke *KeyExchange) RespondKeyExchange(rand io.Reader, hid byte, rA []byte) ([]byte, []byte, error) {
+	if err := ke.checkMasterPublicKey(); err != nil {
+		return nil, nil, err
+	}
 	r, err := randomScalar(rand)
 	if err != nil {
 		return nil, nil, err
